@@ -10,6 +10,8 @@ PROPS = {}
 
 # ---------------------------------------------------------------- C16
 PROPS["C16"] = {
+    "level_text": "One-step refinement of a bounded FIFO: from every RingBuffer state satisfying the representation invariant (all read positions, all fill levels, closed or not, arbitrary item values; capacities 1..8 quick, ..32 thorough) one real Push / Pull / Close is executed symbolically and the post-state, return values, lock release and wake-up are compared with the reference queue. Because each operation is a single mutex-protected critical section (checked on every path), the step result covers operation histories of any length; real goroutine schedules are not explored.",
+    "level_note": "Trusted: sync.Mutex/sync.Cond contracts (modelled sequentially, lock state tracked), the engine's SSA semantics (validated by native replay of counterexamples and must-fail twins). Not covered: real scheduler interleavings, Close racing Start, Reset, asyncprocessor goroutine.",
     "runs": [
         R("ring-size%d" % s, "pkg/ringbuffer", "pkg/ringbuffer", ["ZzC16Push", "ZzC16Pull", "ZzC16Close"],
           flags={"allow": "blocked", "workers": 6}, params={"SIZE": s},
@@ -28,3 +30,11 @@ PROPS["C16"] = {
         "capacities above the registered SIZE values",
     ],
 }
+
+NOT_APPLICABLE = {
+    "C11": "process-level liveness, timeouts and resource release over goroutines, channels, select, sockets and timers: none of it is executable by a sequential SSA-to-SMT encoder at useful bounds (DESIGN.md §7)",
+    "C12": "every API call returning within its timeout, Close leaving no goroutine or socket: scheduling and I/O facts of a 2500-line channel-driven run loop (DESIGN.md §7)",
+    "C13": "quantifies over schedules and crash points of real goroutines; no sequential kernel says anything about bounded-time Close or leaked goroutines (DESIGN.md §7)",
+}
+for _p in ["C01","C02","C03","C04","C05","C06","C07","C08","C09","C10","C14","C15","C17","C18","C19","C20"]:
+    NOT_APPLICABLE.setdefault(_p, "check under construction in this session (planned in DESIGN.md §6); not claimed until it runs clean")
